@@ -131,6 +131,17 @@ Proof.
 Qed.
 Print Assumptions C17_holds.
 
+Lemma C17_validb_valid c : validb c = true -> valid c.
+Proof.
+  destruct c as [cfg h|cut limit allow qs|allow mods attrs keys]; cbn [validb valid].
+  - intros H. apply andb_true_iff in H as [H1 H2]. apply negb_true_iff in H1. auto.
+  - intros H. now apply Nat.eqb_eq in H.
+  - auto.
+Qed.
+Theorem C17_covered_cases : forall c, validb c = true -> holds c (run_model c) = [].
+Proof. intros c H. apply C17_holds. now apply C17_validb_valid. Qed.
+Print Assumptions C17_covered_cases.
+
 (* ---- the behaviour before fix 58671db (D12): root_dir + cache_enabled = False ---- *)
 Definition R : bytes := [47; 114]%N.                             (* "/r" *)
 Definition MAIN : bytes := [109]%N.                              (* "m" *)
